@@ -204,6 +204,9 @@ func runCheck(prop, tier, repo string, seed int, overlay map[string][]byte, repo
 	for _, u := range res.undecided {
 		fmt.Println("UNDECIDED", u)
 	}
+	for _, u := range res.unreach {
+		fmt.Println("NOTE unreachable return (dead code or over-strong assumptions):", u)
+	}
 	res.wall = time.Since(t0).Seconds()
 	if report {
 		writeEvidence(res, tier, seed, eng)
